@@ -206,6 +206,30 @@ def run_check(modname, tier, seed, replay=None, jobs=16):
             if mod.attribute(byid[cid], allcl, f):
                 attributed[cid] = f['key']
 
+    # (c) a call-site finding explains the calls its defect reaches, not every failure at that site: a finding may
+    # state the largest number of attributed cases per 1000 explored calls ever seen on the unchanged tree times a
+    # safety factor (`max_per_1000`); beyond it the site is being reached by something else and nothing is attributed
+    voided = {}
+    if replay:
+        # a replayed case whose attribution was voided in the run that wrote it stays a violation
+        for key in rp.get('voided_findings', []):
+            for cid in [c_ for c_, k_ in attributed.items() if k_ == key]:
+                del attributed[cid]
+    if not replay and ncases >= 200:
+        per = {}
+        for cid, key in attributed.items():
+            per.setdefault(key, []).append(cid)
+        for f in known:
+            cap = f.get('attribution', {}).get('max_per_1000')
+            got = per.get(f['key'], [])
+            if cap is not None and len(got) * 1000 > cap * ncases:
+                voided[f['key']] = len(got)
+                for cid in got:
+                    del attributed[cid]
+        for key, n_ in voided.items():
+            print(f'NOTE finding {key} explains at most {[f for f in known if f["key"] == key][0]["attribution"]["max_per_1000"]} '
+                  f'per 1000 explored calls; {n_} of {ncases} failed at its call site - not attributed')
+
     # ---- report --------------------------------------------------------------------------
     probe_state = {}
     for c in cases:
@@ -234,7 +258,8 @@ def run_check(modname, tier, seed, replay=None, jobs=16):
         c = byid[cid]
         path = os.path.join(rdir, f'{cid}-{canonical(c.get("src"))[:10]}.json')
         with open(path, 'w') as fh:
-            json.dump({'property': prop, 'seed': seed, 'tier': tier, 'src': c.get('src'), 'fails': fails[cid], 'case': strip_src(c)}, fh, indent=1, default=str)
+            json.dump({'property': prop, 'seed': seed, 'tier': tier, 'src': c.get('src'), 'fails': fails[cid], 'case': strip_src(c),
+                       'voided_findings': sorted(voided)}, fh, indent=1, default=str)
         if shown < 25:
             print(f'VIOLATION property={prop} replay={path}')
             print(f'   failing clauses: {fails[cid]}  src={json.dumps(c.get("src"), default=str)[:240]}')
